@@ -14,7 +14,7 @@ use serde_json::json;
 pub const KINDS: [Kind; 6] = [Kind::Ema, Kind::Tr, Kind::Atr, Kind::Macd, Kind::Kc, Kind::Ce];
 pub const MULTS: [f64; 6] = [0.0, 0.5, 2.0, 3.0, 1e3, -1.0];
 
-pub const RULE: &str = "Seeded scalar streams (any sign, RAND and band REGIME families) and valid OHLCV bar streams (6 styles + tiled AMZN) for EMA/TR/ATR/MACD/KC/CE with periods incl. 1, equal and inverted fast/slow, up to 1024, multipliers {0,0.5,2,3,1e3,-1}; every output component judged at every step against a double-double evaluation of the documented recursion over the whole history; plus every bar/scalar sequence up to a depth bound over a small alphabet for periods 1..=4 (exhaustive). Non-trivial: stream longer than every period with >= 2 distinct inputs; distinct by hash of (indicator, params, stream head) or by construction (enumeration).";
+pub const RULE: &str = "Seeded scalar streams (any sign, RAND and band REGIME families) and valid OHLCV bar streams (6 styles + tiled AMZN) for EMA/TR/ATR/MACD/KC/CE with periods incl. 1, equal and inverted fast/slow, up to 1024, multipliers {0,0.5,2,3,1e3,-1}; every output component judged at every step against a double-double evaluation of the documented recursion over the whole history; plus long runs of 2*10^5 (quick) / 2*10^6 (thorough) inputs judged on the first 3000 steps, every 997th and the last; plus every bar/scalar sequence up to a depth bound over a small alphabet for periods 1..=4 (exhaustive). Non-trivial: stream longer than every period with >= 2 distinct inputs; distinct by hash of (indicator, params, stream head) or by construction (enumeration).";
 
 fn judge(p: &Params, out: &Out, r: &RefOut, js: &mut Judgements) -> usize {
     ema_family_judgements(p, out, r, js);
@@ -229,8 +229,52 @@ fn run_enum(ctx: &Ctx) -> Report {
     })
 }
 
+/// long runs (the recursions have infinite memory: a counter, a re-seed or precision loss far into
+/// the stream is invisible to short streams); judged on the first 3000 steps, every 997th and the last
+fn run_soak(ctx: &Ctx) -> Report {
+    let steps = ctx.pick(200_000usize, 2_000_000usize);
+    let seed = ctx.seed;
+    let mut jobs = Vec::new();
+    for (i, regime) in [crate::gen::Regime::Walk, crate::gen::Regime::Saw(100), crate::gen::Regime::AltExtremes, crate::gen::Regime::BadTicks].iter().enumerate() {
+        for bars in [false, true] {
+            jobs.push((i, *regime, bars));
+        }
+    }
+    par_run(jobs, ctx.threads, move |(i, regime, bars), rep| {
+        let mut rng = Rng::derive(seed, 0xC025, *i as u64 + if *bars { 100 } else { 0 });
+        let m = *rng.pick(&[1e-3, 1.0, 1e4]);
+        let inputs: Vec<In> = if *bars {
+            let mut g = BandGen::new(*regime, m, rng.u64());
+            (0..steps)
+                .map(|_| {
+                    let c = g.next();
+                    In::B(Bar { o: c * (1.0 - 0.002 * rng.f()), h: c * (1.0 + 0.01 * rng.f()), l: c * (1.0 - 0.01 * rng.f()), c, v: rng.f() * 1e3 })
+                })
+                .collect()
+        } else {
+            let sign = if rng.chance(0.3) { -1.0 } else { 1.0 };
+            BandGen::new(*regime, m, rng.u64()).take(steps).into_iter().map(|x| In::S(sign * x)).collect()
+        };
+        for kind in KINDS {
+            if !*bars && !kind.has_scalar() {
+                continue;
+            }
+            let mut p = params_for(kind, &mut rng, 64);
+            if kind == Kind::Ce {
+                p.p[0] = p.p[0].min(32);
+            }
+            run_stream(rep, "C02", "c02", &p, &inputs, 3000, 997, &judge);
+            rep.count("soak.long_streams");
+            rep.distinct_by_construction += 1;
+        }
+    })
+}
+
 pub fn run(ctx: &Ctx) -> Report {
     let mut rep = Report::new();
+    if ctx.phase_enabled("soak") {
+        rep.merge(run_soak(ctx));
+    }
     if ctx.phase_enabled("scalar") {
         rep.merge(run_scalar(ctx));
     }
@@ -241,7 +285,7 @@ pub fn run(ctx: &Ctx) -> Report {
         rep.merge(run_enum(ctx));
     }
     if ctx.only.is_none() {
-        for key in ["tr.first_bar", "tr.arm.high_minus_low", "tr.arm.high_vs_prev_close", "tr.arm.low_vs_prev_close", "macd.fast_eq_slow", "macd.fast_gt_slow", "period_1.alpha_is_1", "period_ge_512", "enum.bar_sequences", "enum.scalar_sequences"] {
+        for key in ["tr.first_bar", "tr.arm.high_minus_low", "tr.arm.high_vs_prev_close", "tr.arm.low_vs_prev_close", "macd.fast_eq_slow", "macd.fast_gt_slow", "period_1.alpha_is_1", "period_ge_512", "enum.bar_sequences", "enum.scalar_sequences", "soak.long_streams"] {
             if rep.counters.get(key).copied().unwrap_or(0) == 0 {
                 rep.inconclusive.push(format!("coverage floor missed: {} = 0", key));
             }
